@@ -206,7 +206,10 @@ func RaceBody(kind string) func() {
 		w := &c19world{d: fakeavahi.TheDaemon()}
 		w.d.Up()
 		w.p = mdns.NewAvahiProvider([]int32{fakeavahi.InterfaceUnspec})
-		w.p.Start(true, func(el map[string]string, name, host string, addrs []net.IP, port int, remove bool) {})
+		w.cb = func(el map[string]string, name, host string, addrs []net.IP, port int, remove bool) {
+			w.resolved = append(w.resolved, fmt.Sprintf("%s:%v", name, remove))
+		}
+		w.p.Start(true, w.cb)
 		_ = w.p.Announce("svc", 4711, txtOf("false"))
 		w.want = "false"
 		simrt.Quiesce()
@@ -244,6 +247,54 @@ func RaceBody(kind string) func() {
 			simrt.Go("user-announce", func() { _ = w.p.Announce("svc", 4711, txtOf("true")) })
 			w.want = "true"
 			shutDone = true
+		case "unannounce-vs-reconnect":
+			// the user withdraws the announcement while the provider reconnects: nothing may be announced afterwards
+			w.d.Disconnect()
+			w.d.Up()
+			simrt.Go("user-unannounce", func() { w.p.Unannounce() })
+			w.want = ""
+			shutDone = true
+		case "announce-vs-disconnect":
+			// the daemon goes away and comes back while the user announces new TXT data
+			simrt.Go("daemon-bounce", func() { w.d.Disconnect(); w.d.Up() })
+			simrt.Go("user-announce", func() { _ = w.p.Announce("svc", 4711, txtOf("true")) })
+			w.want = "true"
+			shutDone = true
+		case "disconnect-at-retry-wakeup":
+			// the daemon goes away a second time at the very instant the retry wait of the reconnect loop ends
+			w.d.Disconnect()
+			w.d.Up()
+			t0 := simrt.Elapsed()
+			simrt.Go("daemon-bounce", func() {
+				simrt.Block("retry-wait-over", func() bool { return simrt.Elapsed() >= t0+time.Second })
+				w.d.Disconnect()
+				w.d.Up()
+			})
+			shutDone = true
+		case "browse-after-reconnect":
+			// a service resolved after the provider is connected again reaches the resolver callback
+			w.d.Disconnect()
+			w.d.Up()
+			simrt.Go("peer-appears", func() {
+				simrt.Block("reconnected", func() bool { return w.d.LiveBrowsers() > 0 })
+				w.apply("browse")
+			})
+			shutDone = true
+		case "restart-during-retry-sleep":
+			// manual shutdown while the reconnect loop sleeps, the daemon returns, the application starts the provider again
+			// and announces: the old loop wakes up next to the new connection and has to leave it alone
+			w.d.Disconnect()
+			simrt.RunFor(500 * time.Millisecond)
+			w.p.Shutdown()
+			w.d.Up()
+			simrt.Go("user-restart", func() {
+				if !w.p.Start(true, w.cb) {
+					simrt.Fail("C19|restart-refused", "Start after a manual shutdown failed although the daemon is reachable (%s)", kind)
+				}
+				_ = w.p.Announce("svc", 4711, txtOf("true"))
+			})
+			w.want = "true"
+			shutDone = true
 		case "double-disconnect":
 			w.d.Disconnect()
 			w.d.Up()
@@ -270,8 +321,18 @@ func RaceBody(kind string) func() {
 			if n := w.d.LiveBrowsers(); n != 1 {
 				simrt.Fail(fmt.Sprintf("C19|browsers=%d", n), "%d live browsers after things settled (%s)", n, kind)
 			}
+			if n := w.listeners(); n != 1 {
+				simrt.Fail(fmt.Sprintf("C19|listeners=%d", n), "%d listener goroutines are running instead of 1 after things settled (%s)", n, kind)
+			}
+			if kind == "browse-after-reconnect" && len(w.resolved) == 0 {
+				simrt.Fail("C19|browse-result-lost", "a service resolved after the provider had reconnected did not reach the resolver callback (%s)", kind)
+			}
 			gs := w.d.LiveGroups()
-			if len(gs) != 1 {
+			if w.want == "" {
+				if len(gs) > 0 {
+					simrt.Fail("C19|stale-announcement", "the announcement was withdrawn while the provider reconnected but the daemon serves %d committed entry group(s) (%s)", len(gs), kind)
+				}
+			} else if len(gs) != 1 {
 				simrt.Fail(fmt.Sprintf("C19|groups=%d", len(gs)), "%d committed entry groups after things settled (%s)", len(gs), kind)
 			} else if !strings.Contains(strings.Join(gs[0].Services[0].Txt, ","), "register="+w.want) {
 				simrt.Fail("C19|outdated-txt", "committed TXT %v, most recently requested register=%s (%s)", gs[0].Services[0].Txt, w.want, kind)
